@@ -46,6 +46,10 @@ type c02Input struct {
 	// LookbackS: the engine is built with Options.LookbackDuration = -LookbackS seconds (0 = default, 30 s): an
 	// instant query then looks that far back.
 	LookbackS int `json:"lookback_s,omitempty"`
+	// Before: the same Querier and Engine first answer a query over this earlier inventory (same container ids,
+	// other names / states / labels) with BeforeMatchers; nothing of it may show in the answer over Ctrs.
+	Before         []c02Ctr     `json:"before,omitempty"`
+	BeforeMatchers []c02Matcher `json:"before_matchers,omitempty"`
 }
 
 // refLabels is the specification of a container's label set.
@@ -106,9 +110,9 @@ type c02Obs struct {
 	Panics  []string            `json:"panics,omitempty"`
 }
 
-func c02Exec(in c02Input) (c02Obs, []fakedocker.LogCall) {
+func c02Fake(cs []c02Ctr) []fakedocker.Container {
 	var ctrs []fakedocker.Container
-	for i, c := range in.Ctrs {
+	for i, c := range cs {
 		id := fmt.Sprintf("id%d", i)
 		recs := []fakedocker.Rec{
 			{Stream: 1, TS: fakedocker.TS(1 * sec), Msg: "from-" + id + "-1"},
@@ -121,7 +125,15 @@ func c02Exec(in c02Input) (c02Obs, []fakedocker.LogCall) {
 		ctrs = append(ctrs, fakedocker.Container{ID: id, Name: c.Name, Names: c.Names, Image: c.Image, State: c.State, Labels: labels, Log: fakedocker.Encode(recs),
 			ImageID: "sha256:" + c.Image, Command: "run " + c.State, Created: int64(1700000000 + len(c.Image)), Status: "Up " + c.State})
 	}
+	return ctrs
+}
+
+func c02Exec(in c02Input) (c02Obs, []fakedocker.LogCall) {
+	ctrs := c02Fake(in.Ctrs)
 	fake := fakedocker.New(ctrs)
+	if len(in.Before) > 0 {
+		fake = fakedocker.New(c02Fake(in.Before))
+	}
 	var obs c02Obs
 	sel := c02Selector(in.Matchers)
 	query := sel
@@ -153,6 +165,13 @@ func c02Exec(in c02Input) (c02Obs, []fakedocker.LogCall) {
 		eng := newEngine(q)
 		if in.LookbackS > 0 {
 			eng = logqlengine.NewEngine(q, logqlengine.Options{TracerProvider: noop.NewTracerProvider(), LookbackDuration: -time.Duration(in.LookbackS) * time.Second})
+		}
+		if len(in.Before) > 0 {
+			// the earlier query, on the same Querier and Engine; then the daemon's inventory changes
+			_, _ = eng.Eval(context.Background(), c02Selector(in.BeforeMatchers), params)
+			fake.Containers = ctrs
+			fake.Calls, fake.OpenOrder = nil, nil
+			fake.Opened, fake.Closed, fake.ReadBytes = make([]int, len(ctrs)), make([]int, len(ctrs)), make([]int, len(ctrs))
 		}
 		data, err := eng.Eval(context.Background(), query, params)
 		if err != nil {
@@ -477,6 +496,20 @@ func c02Run(r *vkit.Run) {
 		for _, lb := range []int{60, 5} {
 			one(c02Input{Ctrs: inv, Matchers: []c02Matcher{all}, Shape: "instant-log", StartNS: 100 * sec, EndNS: 100 * sec, LookbackS: lb})
 		}
+		// a Querier that has answered a query before: the inventory changed in between (states flip, names rotate,
+		// labels move to the next container), and the earlier selector matched a subset
+		if len(inv) >= 2 {
+			before := make([]c02Ctr, len(inv))
+			for i := range inv {
+				j := (i + 1) % len(inv)
+				before[i] = c02Ctr{Name: inv[j].Name, Names: inv[j].Names, Image: inv[i].Image, State: map[string]string{"running": "exited", "exited": "running"}[inv[i].State], Labels: inv[j].Labels}
+			}
+			for _, bm := range [][]c02Matcher{{all}, {{Label: "container_state", Op: "=", Value: "running"}}, {{Label: "container", Op: "=~", Value: "a.*"}}} {
+				for _, m := range []c02Matcher{all, {Label: "container_state", Op: "=", Value: "running"}, {Label: "container", Op: "!=", Value: "a"}, {Label: "k", Op: "=", Value: "v"}, {Label: "container_name", Op: "=~", Value: "a|b"}} {
+					one(c02Input{Ctrs: inv, Matchers: []c02Matcher{m}, Shape: "log", StartNS: 0, EndNS: 3 * sec, Before: before, BeforeMatchers: bm})
+				}
+			}
+		}
 		// pairs of matchers (quick: a 1/7 lattice of the 2nd matcher, offset per inventory so that all pairs are met across inventories)
 		for a := range ms {
 			for b := (a + ii) % pairStep; b < len(ms); b += pairStep {
@@ -486,7 +519,7 @@ func c02Run(r *vkit.Run) {
 		r.State(vkit.J(inv))
 	}
 	one(c02Input{Ctrs: invs[0], Matchers: nil, Shape: "log", StartNS: 0, EndNS: 3 * sec})
-	r.Note("bounds", fmt.Sprintf("%d container variants (3 names x 2 images x 2 states x 6 Docker-label sets) in %d inventories; %d single matchers (7 labels x 4 ops x 13 values incl. explicitly anchored alternations) x 10 time ranges x 5 query shapes; matcher pairs on a 1/%d lattice", len(vars), len(invs), len(ms), pairStep))
+	r.Note("bounds", fmt.Sprintf("%d container variants (3 names x 2 images x 2 states x 6 Docker-label sets) in %d inventories; %d single matchers (7 labels x 4 ops x 13 values incl. explicitly anchored alternations) x 10 time ranges x 5 query shapes; matcher pairs on a 1/%d lattice; 15 (earlier selector, selector) pairs per inventory on a Querier that answered a query over a different inventory before", len(vars), len(invs), len(ms), pairStep))
 }
 
 func c02Replay(r *vkit.Run, v vkit.Violation) *vkit.Violation {
